@@ -783,6 +783,18 @@ class Interp(object):
             if isinstance(e, ast.Call):
                 e = e.func
             name = ast.unparse(e)
+            # an exception produced by a helper (raise self._error()) or bound to a name: evaluate it; what is raised is
+            # the class of the resulting exception object
+            simple = isinstance(e, ast.Name) or (isinstance(e, ast.Attribute) and isinstance(e.value, ast.Name) and
+                                                 e.value.id not in ('self',))
+            if not simple or (isinstance(e, ast.Name) and env.get(e.id) is not None):
+                v = self.eval(st.exc, env)
+                if isinstance(v, Obj) and v.cls == 'exception':
+                    name = v.attrs.get('name', name)
+                elif isinstance(v, Lib) and v.name.startswith('builtins.'):
+                    name = v.name.split('.', 1)[1]
+                else:
+                    raise Unsupported('raise of %r' % (v,), st)
         self.guards.append({'kind': 'raise', 'node': st, 'loc': self.loc(st), 'value': True,
                             'func': self.frames[-1].func.name, 'exc': name})
         raise Raised(name, '', self.loc(st))
@@ -1007,10 +1019,20 @@ class Interp(object):
             return self.for_labels(st, env, it)
         if isinstance(it, Obj):
             m = self.find_method(it, '__iter__')
-            if m is not None and isinstance(m, Native):
+            if m is not None:
                 it2 = self.call(m, [], {}, st)
                 if isinstance(it2, LabelIter):
                     return self.for_labels(st, env, it2)
+                if isinstance(it2, Seq):
+                    for x in it2.items:
+                        self.assign(st.target, x, env, st)
+                        try:
+                            self.exec_block(st.body, env)
+                        except _Continue:
+                            continue
+                        except _Break:
+                            break
+                    return
         raise Unsupported('iteration over %r' % (it,), st)
 
     def for_labels(self, st, env, it):
@@ -1278,6 +1300,8 @@ class Interp(object):
         nat = self.natives.get((o.cls, name))
         if nat is not None:
             return Native('%s.%s' % (o.cls, name), nat, o)
+        if o.cls == 'dict' and name in self.lib.DICT_METHODS:
+            return Native('dict.' + name, self.lib.DICT_METHODS[name], o)
         return None
 
     def get_attr(self, o, name, node):
@@ -1589,9 +1613,19 @@ class Interp(object):
                 r = a is b
             return Const(r if op == 'Is' else not r)
         if op in ('In', 'NotIn'):
+            if isinstance(b, Obj) and b.cls == 'dict':
+                b = Seq([Const(k) for k in b.attrs['items']], 'list')
             if isinstance(b, Seq):
                 found = False
                 for x in b.items:
+                    if x is a:
+                        found = True
+                        continue
+                    if getattr(x, 'kind', None) == 'array' and not isinstance(a, (Arr, View)):
+                        # `needle in [ndarray]`: identity fails, then `ndarray == needle` is elementwise and its truth value
+                        # is ambiguous for more than one element
+                        raise Raised('ValueError', 'The truth value of an array with more than one element is ambiguous '
+                                     '(membership test compares an ndarray with %r)' % (getattr(a, 'v', a),), self.loc(node))
                     e = self.compare('Eq', a, x, node)
                     if not isinstance(e, Const):
                         raise Unsupported('membership with symbolic equality', node)
@@ -1735,11 +1769,6 @@ class Interp(object):
         if isinstance(o, Obj):
             m = self.find_method(o, '__getitem__')
             if m is None:
-                if o.cls == 'dict':
-                    k = self.index_to_value(idx)
-                    if isinstance(k, Const) and k.v in o.attrs['items']:
-                        return o.attrs['items'][k.v]
-                    raise Raised('KeyError', repr(k), self.loc(node))
                 raise Raised('TypeError', '%s is not subscriptable' % o.clsname, self.loc(node))
             return self.call(m, [self.index_to_value(idx)], {}, node)
         if isinstance(o, Seq):
@@ -1843,13 +1872,14 @@ class Interp(object):
         raise Unsupported('item store on %r' % (o,), node)
 
     def ev_ListComp(self, node, env):
-        raise Unsupported('list comprehension', node)
+        return self.lib.listcomp(self, node, env)
 
     def ev_DictComp(self, node, env):
         return self.lib.dictcomp(self, node, env)
 
     def ev_GeneratorExp(self, node, env):
-        raise Unsupported('generator expression', node)
+        # evaluated eagerly (the package only feeds generator expressions to any/all/sum/list/tuple/set)
+        return self.lib.listcomp(self, node, env)
 
     def ev_Starred(self, node, env):
         raise Unsupported('starred', node)
